@@ -41,14 +41,18 @@ class SwallowTap(logging.Handler):
 def swallow_tap():
     lg = logging.getLogger("src.orchestrator.core")
     tap = SwallowTap()
-    old_prop = lg.propagate
+    old_prop, old_level = lg.propagate, lg.level
     lg.addHandler(tap)
     lg.propagate = False
+    # the workers silence the "src" logger tree; this logger must stay enabled for ERROR or its
+    # records are dropped before any handler (the tap included) sees them
+    lg.setLevel(logging.ERROR)
     try:
         yield tap
     finally:
         lg.removeHandler(tap)
         lg.propagate = old_prop
+        lg.setLevel(old_level)
 
 
 @contextmanager
